@@ -20,7 +20,7 @@ DIRS = {"C01": "scenario tests/agents tests/dynamics tests/data", "C02": "sensor
         "C15": "dynamics tests/agents", "C16": "physics tests/estimation", "C17": "estimation", "C18": "estimation",
         "C19": "dynamics tests/tasking tests/scenario tests/data", "C20": "physics tests/estimation"}
 
-TMPL = '''You are a careful software engineer helping to evaluate a verification effort by SEEDING a realistic defect. Work ONLY inside your own scratch git worktree of the repository vtnsi/resonaate (a Python space-surveillance simulator) at {wt} (source under {wt}/src/resonaate, tests under {wt}/tests). Do NOT read, list or use anything under /verif, /repo or other directories under {root}; do not use the network. Python: /venv/bin/python (the package is importable with PYTHONPATH={wt}/src). Run tests like: cd {wt} && PYTHONPATH={wt}/src /venv/bin/python -m pytest -q -p no:cacheprovider --timeout=900 tests/<subdir or file> . The machine is heavily loaded: run only the test directories relevant to the files you touch plus one broader run at the end (tests/{dirs}), never the whole suite more than once; always wrap long commands in `timeout`.
+TMPL = '''You are a careful software engineer helping to evaluate a verification effort by SEEDING a realistic defect. Work ONLY inside your own scratch git worktree of the repository vtnsi/resonaate (a Python space-surveillance simulator) at {wt} (source under {wt}/src/resonaate, tests under {wt}/tests). Do NOT read, list or use anything under /verif, /repo or other directories under {root}; do not use the network. Python: /venv/bin/python (the package is importable with PYTHONPATH={wt}/src). Run tests like: cd {wt} && PYTHONPATH={wt}/src /venv/bin/python -m pytest -q -p no:cacheprovider --timeout=900 tests/<subdir or file> . The machine is heavily loaded: run only the test directories relevant to the files you touch plus one broader run at the end (tests/{dirs}), never the whole suite more than once; always wrap long commands in `timeout`. NEVER use `git stash` (the stash stack is shared with other people's worktrees): to set a change aside use `git diff > some_file; git checkout -- .` and `git apply some_file` to bring it back.
 
 The property under study ({pid}: {title}):
 STATEMENT: {statement}
